@@ -23,6 +23,9 @@
 //! * `eof_calls` — Interrupted in place of every read call that observes the end of the input (documents and
 //!   indexes, every api, direct and BufReader 1 / 17 / 8192): the transfer menus above only decide calls that
 //!   deliver bytes.
+//! * `member_layouts` — the BGZF member layout as the adversary: every small BGZF-compressed index (tabix, CSI) and
+//!   data document (BAM, BCF, SAM.gz, VCF.gz) re-compressed with a member boundary / an empty member at every
+//!   uncompressed offset and with 1-byte members; sync APIs and the async reader; oracle: the single-member log.
 //! * `uniform`  — OneByte / InterruptEvery / Irregular / a fixed pattern, over every wrapper, including the
 //!   > 64 KiB documents.
 
@@ -1101,6 +1104,120 @@ fn main() {
                             obs,
                         ))
                     }
+                }
+            });
+        }
+
+        // ---- member_layouts: the BGZF member layout as the adversary. Re-chunking the compressed file (all harnesses
+        //      above) never moves a member boundary, and one read() of bgzf::io::Reader stops at it. Every small
+        //      BGZF-compressed index (tabix, CSI) and data document (BAM, BCF, SAM.gz, VCF.gz) is re-compressed from
+        //      its uncompressed stream with (a) two members split at every offset k, (b) an empty member at every k,
+        //      (c) 1-byte members for the first 64 bytes; every sync API and the async reader; oracle: the log of the
+        //      single-member file (virtual positions aside).
+        {
+            struct MRow {
+                doc: usize,
+                /// None: the async reader (vnd::adrive).
+                api: Option<Api>,
+                spec: Vec<String>,
+                n: usize,
+            }
+            fn members(parts: &[&[u8]]) -> Vec<u8> {
+                let mut out = Vec::new();
+                for p in parts {
+                    if p.is_empty() {
+                        out.extend(vmc::oracle::bgzf::make_block(&[], 1));
+                    }
+                    for c in p.chunks(65280) {
+                        out.extend(vmc::oracle::bgzf::make_block(c, 1));
+                    }
+                }
+                out.extend_from_slice(&vmc::oracle::bgzf::EOF);
+                out
+            }
+            let mopts = |d: &Doc, api: Api, len: usize| {
+                let mut o = Opts::for_doc(d).api(api);
+                o.input_len = o.input_len.max(len);
+                o.vpos = false;
+                o
+            };
+            let read = |d: &Doc, api: Option<Api>, file: &[u8]| -> Vec<String> {
+                match api {
+                    Some(a) => vnd::read_log(d.format, file, &mopts(d, a, file.len())),
+                    None => vnd::adrive::read_log_async(d.format, file, &mopts(d, Api::Eager, file.len())).unwrap_or_default(),
+                }
+            };
+            let thorough = ctx.thorough();
+            let mut rows: Vec<MRow> = Vec::new();
+            for (i, d) in docs.iter().enumerate() {
+                let is_index = matches!(d.format, Format::Csi | Format::Tbi);
+                if d.big || d.raw || !(is_index || matches!(d.format, Format::Bam | Format::Bcf | Format::SamGz | Format::VcfGz)) {
+                    continue;
+                }
+                let Some(inner) = d.inner.as_ref() else { continue };
+                // quick: the indexes, and the data documents that are not themselves layout variants, up to 2 KiB
+                let variant = ["-split", "empty-members", "padded", "eng-", "reuse-", "no-n_no_coor", "-idx"].iter().any(|w| d.name.contains(w));
+                if !thorough && !is_index && (variant || inner.bytes.len() > 2048) {
+                    continue;
+                }
+                let len = inner.bytes.len();
+                let n = 2 * len.saturating_sub(1) + 1;
+                let single = members(&[&inner.bytes[..]]);
+                for &api in Api::all_for(d.format) {
+                    rows.push(MRow { doc: i, api: Some(api), spec: read(d, Some(api), &single), n });
+                }
+                if vnd::adrive::has_async(d.format) && (thorough || is_index) {
+                    rows.push(MRow { doc: i, api: None, spec: read(d, None, &single), n });
+                }
+            }
+            let mut starts = Vec::new();
+            let mut total = 0usize;
+            for r in &rows {
+                starts.push(total);
+                total += r.n;
+            }
+            ctx.extra("member_layouts", vmc::json!({"rows": rows.len(), "cases": total, "documents": rows.iter().map(|r| docs[r.doc].name.clone()).collect::<std::collections::BTreeSet<_>>()}));
+            let (docs, rows, starts, read) = (&docs, &rows, &starts, &read);
+            ctx.harness(Config::new("member_layouts", 0), move |ch: &Chooser| -> Outcome {
+                if total == 0 {
+                    return Ok(());
+                }
+                let i = ch.free("case", total);
+                let r = starts.partition_point(|&s| s <= i) - 1;
+                let row = &rows[r];
+                let d = &docs[row.doc];
+                let b = &d.inner.as_ref().unwrap().bytes;
+                let len = b.len();
+                let j = i - starts[r];
+                let splits = len.saturating_sub(1);
+                let (file, how, class) = if j < splits {
+                    let k = j + 1;
+                    (members(&[&b[..k], &b[k..]]), format!("two members, the first ends at uncompressed offset {k}"), "two-members")
+                } else if j < 2 * splits {
+                    let k = j - splits + 1;
+                    (members(&[&b[..k], &[], &b[k..]]), format!("an empty member at uncompressed offset {k}"), "empty-member-inside")
+                } else {
+                    let m = 64.min(len);
+                    let mut parts: Vec<&[u8]> = (0..m).map(|x| &b[x..x + 1]).collect();
+                    parts.push(&b[m..]);
+                    (members(&parts), format!("1-byte members for the first {m} bytes"), "one-byte-members")
+                };
+                let api = row.api.map(|a| format!("{a:?}")).unwrap_or_else(|| "Async".into());
+                ch.desc(|| format!("doc={} api={api} {how}", d.name));
+                let log = read(d, row.api, &file);
+                ch.obs_hash((row.doc, &api, j));
+                match compare(&row.spec, &log) {
+                    None => Ok(()),
+                    Some((symptom, exp, obs)) => Err(Violation::new(
+                        format!("format={} api={api} layout={class} symptom={symptom}", d.format),
+                        format!(
+                            "doc={}: its uncompressed stream ({len} bytes) re-compressed as {how} (+ EOF marker), read with {api}; uncompressed stream (hex): {}",
+                            d.name,
+                            if len <= 1600 { hex_full(b) } else { vmc::hex(b) }
+                        ),
+                        format!("the log of the same stream in a single member; {exp}"),
+                        obs,
+                    )),
                 }
             });
         }
